@@ -368,7 +368,7 @@ Section CodecProofs.
   Proof. intros H. unfold pfx_num in *. cbn [List.app] in H. ft_dispatch H. Qed.
   Lemma from_text_scl rest : char_boundary_at4 (pfx_scl ++ rest) = true ->
     from_text is_utf8 (pfx_scl ++ rest) =
-    if (len rest <? 64) || negb (forallb is_hexb (firstn 64 rest)) then Err
+    if negb (len rest =? 64) || negb (forallb is_hexb rest) then Err
     else rmap CScalar (scalar_from_be_hex rest).
   Proof. intros H. unfold pfx_scl in *. cbn [List.app] in H. ft_dispatch H. Qed.
   Lemma from_text_rev rest : char_boundary_at4 (pfx_rev ++ rest) = true ->
@@ -423,8 +423,10 @@ Section CodecProofs.
       assert (Hl : length (hex_encode (to_be 32 s)) = 64%nat) by (rewrite hex_encode_length, to_be_length; reflexivity).
       replace (len (hex_encode (to_be 32 s)) <? 64) with false
         by (symmetry; apply Z.ltb_ge; unfold len; rewrite Hl; lia).
-      rewrite <- Hl, firstn_all, hex_encode_all_hex by exact Hb. cbn [negb orb].
-      rewrite hex_roundtrip by exact Hb.
+      replace (len (hex_encode (to_be 32 s)) =? 64) with true
+        by (symmetry; apply Z.eqb_eq; unfold len; rewrite Hl; reflexivity).
+      rewrite hex_encode_all_hex by exact Hb. cbn [negb orb].
+      rewrite <- Hl, firstn_all, hex_roundtrip by exact Hb.
       unfold scalar_of_be. rewrite of_be_to_be_small.
       + replace (s <? rmod) with true by (symmetry; apply Z.ltb_lt; lia). reflexivity.
       + assert (rmod < 256 ^ Z.of_nat 32) by reflexivity. lia.
